@@ -279,6 +279,12 @@ def exec (op fmt payload : String) : Except String String := do
     pure (match Peg.referenceS Gen.readmeGrammar s with
       | some v => s!"ok {showLNarsese v}"
       | none => "err")
+  | "pegen" =>
+    -- the grammar block of README.en.md (the same grammar, published in English) as reference
+    let s ← runRd rdStr payload
+    pure (match Peg.referenceS Gen.readmeGrammarEn s with
+      | some v => s!"ok {showLNarsese v}"
+      | none => "err")
   | "c01hyp" =>
     -- model-only: do the hypotheses of the C01 round-trip theorem (`Props/C01c.lean`) hold for this value?
     let F ← efmtOf fmt
